@@ -141,3 +141,48 @@ func VH_E_bad_NegativeSizeUnderCut() {
 	b := make([]byte, n)
 	_ = b
 }
+
+// unbuffered channels are rendezvous points: a send completes only together with a receive
+func VH_E_ok_Rendezvous() {
+	ch := make(chan int)
+	done := make(chan struct{})
+	sent, selSent := false, false
+	go func() { ch <- 1; sent = true }()
+	vhRunAll()
+	vhAssert(!sent, "unbuffered-send-waits-for-a-receiver")
+	v := <-ch
+	vhRunAll()
+	vhAssert(v == 1 && sent, "rendezvous-hands-the-value-over")
+	go func() {
+		select {
+		case ch <- 2:
+			selSent = true
+		case <-done:
+		}
+	}()
+	vhRunAll()
+	vhAssert(!selSent, "select-send-waits-for-a-receiver")
+	var w int
+	select {
+	case w = <-ch:
+	case <-done:
+	}
+	vhRunAll()
+	vhAssert(w == 2 && selSent, "select-rendezvous")
+	// a receiver parked first, the sender arrives later
+	got := 0
+	go func() { got = <-ch }()
+	vhRunAll()
+	ch <- 3
+	vhRunAll()
+	vhAssert(got == 3, "parked-receiver-gets-the-value")
+	vhReach("e-rendezvous")
+}
+
+func VH_E_bad_SendWithoutReceiver() {
+	ch := make(chan int)
+	sent := false
+	go func() { ch <- 1; sent = true }()
+	vhRunAll()
+	vhAssert(sent, "unbuffered-send-completed-without-a-receiver") // must be refuted
+}
